@@ -15,12 +15,23 @@
 //! component that returns `Err`. Inside a scope the first failing step ends the body; the top level carries on after
 //! every result. One output per program node in program order: `skip` = never reached, `failed`, `sok` / `serr` /
 //! `spanic` for a scope. A final read of the stack that panics is printed as `(stack panic)`.
+//!
+//! Shipped pop-process-push components: `(c-eval)` / `(c-eval-a)` = `PopulationEvaluator` with identifier `Global` / `A`
+//! (sequential evaluator of `TagProblem`: objective = tag); `(c-comp NAME ARG*)` = a selection (`sel-*`, reads the
+//! current population and pushes one), a replacement (`rep-*`, 2 -> 1), the real mutation / recombination drivers with
+//! a harness operator (`mut-*`, `rec-*`, 1 -> 1), `ElitistArchiveUpdate` (`arch-upd`, 1 -> 1 untouched) and
+//! `ElitistArchiveIntoPopulation` (`arch-into`). Output `(ok P*)` = the populations it put back (top first; witness:
+//! WHAT a component puts back is not this property's business), `(err H)` / `(panic H)` = failed, height afterwards.
+//! `(hold OP*)` / `(hold-err OP*)` = `State::holding::<Populations>` with the operations performed on the held stack
+//! and the closure returning `Ok` / `Err`; outputs `sok` / `serr` for the call and one per operation.
 use hcommon::problems::TagProblem;
 use hcommon::*;
 use mahf::components::utils::populations::*;
 use mahf::state::common::Populations;
 use mahf::components::Scope;
-use mahf::{Component, Configuration, ExecResult, Individual, State};
+use mahf::components::{archive, evaluation::PopulationEvaluator, mutation, recombination, replacement, selection};
+use mahf::components::recombination::OptionalPair;
+use mahf::{Component, Configuration, ExecResult, Individual, Random, State};
 use serde::Serialize;
 use std::sync::{Arc, Mutex};
 
@@ -74,6 +85,84 @@ fn apply_edit(c: &mut Vec<Individual<P>>, e: &Sx) {
     }
 }
 
+/// Harness operator driven by the REAL mutation driver (`mutation::mutation`: pop, mutate every solution, push).
+#[derive(Clone, Serialize)]
+struct TagMutation { fail: bool }
+impl mutation::Mutation<P> for TagMutation {
+    fn mutate(&self, solution: &mut u64, _: &P, _: &mut State<P>) -> ExecResult<()> {
+        if self.fail { return Err(eyre::eyre!("mutation failed")); }
+        *solution += 1_000_000;
+        Ok(())
+    }
+}
+impl Component<P> for TagMutation {
+    fn execute(&self, problem: &P, state: &mut State<P>) -> ExecResult<()> { mutation::mutation(self, problem, state) }
+}
+/// Harness operator driven by the REAL recombination driver (pop, pairs, push): 0 = no child, 1 = one, 2 = two.
+#[derive(Clone, Serialize)]
+struct TagRecombination { children: u64 }
+impl recombination::Recombination<P> for TagRecombination {
+    fn recombine(&self, a: &u64, b: &u64, _: &mut Random) -> OptionalPair<u64> {
+        match self.children { 0 => OptionalPair::None, 1 => OptionalPair::Single(a + b + 2_000_000), _ => OptionalPair::Both([*b + 2_000_000, *a + 2_000_000]) }
+    }
+}
+impl Component<P> for TagRecombination {
+    fn execute(&self, problem: &P, state: &mut State<P>) -> ExecResult<()> { recombination::recombination(self, problem, state) }
+}
+
+/// Number of populations a `(c-comp NAME ..)` puts back (the Lean model has the same table).
+fn puts_of(name: &str) -> usize {
+    if name == "arch-upd" { 0 } else { 1 }
+}
+fn frame_comp(name: &str, a: &[Sx]) -> Box<dyn Component<P>> {
+    let n = |i: usize| a.get(i).and_then(|x| x.nat()).unwrap_or(1) as u32;
+    match name {
+        "sel-all" => selection::All::new(),
+        "sel-none" => selection::None::new(),
+        "sel-clone" => selection::CloneSingle::new(n(0)),
+        "sel-rand" => selection::FullyRandom::new(n(0)),
+        "sel-norep" => selection::RandomWithoutRepetition::new(n(0)),
+        "sel-tour" => selection::Tournament::new(n(0), n(1)),
+        "sel-rank" => selection::LinearRank::new(n(0)),
+        "sel-roul" => selection::RouletteWheel::new(n(0), 1.0),
+        "rep-merge" => replacement::Merge::new(),
+        "rep-discard" => replacement::DiscardOffspring::new(),
+        "rep-mpl" => replacement::MuPlusLambda::new(n(0)),
+        "rep-gen" => replacement::Generational::new(n(0)),
+        "rep-rand" => replacement::RandomReplacement::new(n(0)),
+        "rep-kbi" => replacement::KeepBetterAtIndex::new(),
+        "mut-tag" => Box::new(TagMutation { fail: false }),
+        "mut-err" => Box::new(TagMutation { fail: true }),
+        "rec-tag" => Box::new(TagRecombination { children: n(0) as u64 }),
+        "arch-upd" => archive::ElitistArchiveUpdate::new(n(0) as usize),
+        "arch-into" => archive::ElitistArchiveIntoPopulation::new(),
+        _ => panic!("unknown component {name}"),
+    }
+}
+
+/// A `Populations` API operation on a stack that is held (`State::holding`), i.e. not reachable through the state.
+fn pops_op(pops: &mut Populations<P>, op: &Sx) -> String {
+    let (name, a) = op.head().unwrap();
+    let arg = |i: usize| a[i].nat().unwrap() as usize;
+    let r: Option<String> = match name {
+        "push" => catch(|| { pops.push(mk(&a[0])); "ok".to_string() }),
+        "pop" => catch(|| pop_s(&pops.pop())),
+        "trypop" => catch(|| pops.try_pop().map(|p| pop_s(&p)).unwrap_or("none".into())),
+        "cur" => catch(|| pop_s(pops.current())),
+        "getcur" => catch(|| pops.get_current().map(pop_s).unwrap_or("none".into())),
+        "edit" => catch(|| { apply_edit(pops.current_mut(), &a[0]); "ok".to_string() }),
+        "tryedit" => catch(|| pops.get_current_mut().map(|c| { apply_edit(c, &a[0]); "ok".to_string() }).unwrap_or("none".into())),
+        "peek" => catch(|| pop_s(pops.peek(arg(0)))),
+        "trypeek" => catch(|| pops.try_peek(arg(0)).map(pop_s).unwrap_or("none".into())),
+        "rot" => catch(|| { pops.rotate(arg(0)); "ok".to_string() }),
+        "len" => catch(|| pops.len().to_string()),
+        "empty" => catch(|| b(pops.is_empty())),
+        "reset" => catch(|| { *pops = Populations::<P>::default(); "ok".to_string() }),
+        _ => panic!("not a Populations operation: {name}"),
+    };
+    r.unwrap_or("panic".into())
+}
+
 /// One operation on the state it is given (which may be a child scope); panics are caught here, so that none ever
 /// crosses `with_inner_state`.
 fn exec_op(state: &mut State<P>, op: &Sx) -> String {
@@ -118,6 +207,26 @@ fn exec_op(state: &mut State<P>, op: &Sx) -> String {
                 Some(s) => s,
             })
         }
+        "c-eval" | "c-eval-a" => {
+            let c: Box<dyn Component<P>> = if name == "c-eval" { PopulationEvaluator::new() } else { PopulationEvaluator::<mahf::identifier::A>::new_with() };
+            let r = catch(|| match c.execute(&problem, state) { Ok(()) => "ok".to_string(), Err(_) => "(e exec)".to_string() });
+            Some(r.unwrap_or_else(|| catch(|| state.populations().len()).map(|h| format!("(panic {h})")).unwrap_or("panic".into())))
+        }
+        "c-comp" => {
+            let cname = a[0].atom().unwrap();
+            let c = frame_comp(cname, &a[1..]);
+            let r = catch(|| c.execute(&problem, state).is_ok());
+            let height = |state: &State<P>| catch(|| state.populations().len());
+            Some(match r {
+                Some(true) => catch(|| {
+                    let pops = state.populations();
+                    let new: Vec<String> = (0..puts_of(cname)).map(|d| pops.try_peek(d).map(pop_s).unwrap_or("none".into())).collect();
+                    tagged("ok", new)
+                }).unwrap_or("panic".into()),
+                Some(false) => height(state).map(|h| format!("(err {h})")).unwrap_or("panic".into()),
+                None => height(state).map(|h| format!("(panic {h})")).unwrap_or("panic".into()),
+            })
+        }
         _ => panic!("unknown op {name}"),
     };
     r.unwrap_or("panic".into())
@@ -141,6 +250,8 @@ enum Node {
     Failing(usize, Sx),
     Try(Box<Node>),
     Scope(usize, String, Arc<Vec<Node>>),
+    /// `State::holding::<Populations>`: operations on the held stack, then `Ok` (true) or `Err`.
+    Hold(usize, bool, Vec<(usize, Sx)>),
 }
 const KINDS: [&str; 5] = ["cl", "sc", "cf", "if", "mf"];
 
@@ -151,6 +262,10 @@ fn parse_node(x: &Sx, next: &mut usize) -> Node {
         "fail" => Node::Fail(id()),
         "failing" => Node::Failing(id(), a[0].clone()),
         "try" => Node::Try(Box::new(parse_node(&a[0], next))),
+        "hold" | "hold-err" => {
+            let me = id();
+            Node::Hold(me, name == "hold", a.iter().map(|y| (id(), y.clone())).collect())
+        }
         k if KINDS.contains(&k) => {
             let me = id();
             Node::Scope(me, k.to_string(), Arc::new(a.iter().map(|y| parse_node(y, next)).collect()))
@@ -190,13 +305,21 @@ fn exec_node(state: &mut State<P>, n: &Node, log: &Log) -> ExecResult<()> {
     match n {
         Node::Op(id, sx) => {
             let o = exec_op(state, sx);
-            let failed = o == "(e exec)";
+            let failed = o == "(e exec)" || o.starts_with("(err ");
             log_set(log, *id, o);
             if failed { Err(step_err()) } else { Ok(()) }
         }
         Node::Fail(id) => { log_set(log, *id, "failed".into()); Err(step_err()) }
         Node::Failing(id, sx) => { let o = exec_op(state, sx); log_set(log, *id, o); Err(step_err()) }
         Node::Try(inner) => { let _ = exec_node(state, inner, log); Ok(()) }
+        Node::Hold(id, ok, ops) => {
+            let r = catch(|| state.holding::<Populations<P>>(|pops, _rest| {
+                for (i, op) in ops { log_set(log, *i, pops_op(pops, op)); }
+                if *ok { Ok(()) } else { Err(step_err()) }
+            }));
+            log_set(log, *id, match &r { None => "spanic", Some(Ok(())) => "sok", Some(Err(_)) => "serr" }.into());
+            match r { Some(Ok(())) => Ok(()), _ => Err(step_err()) }
+        }
         Node::Scope(id, kind, body) => {
             let problem = TagProblem;
             let r: Option<ExecResult<()>> = catch(|| match kind.as_str() {
@@ -220,6 +343,12 @@ fn run_case(input: &Sx) -> String {
     let (_, ops) = input.head().unwrap();
     let mut state: State<P> = State::new();
     state.insert(Populations::<P>::new());
+    // what the shipped components need besides the stack, all in the root registry
+    state.insert(Random::new(0));
+    state.insert(mahf::state::common::Evaluations(0));
+    state.insert_evaluator(mahf::problems::Sequential::<P>::new());
+    state.insert_evaluator_as::<mahf::identifier::A>(mahf::problems::Sequential::<P>::new());
+    let _ = archive::ElitistArchiveUpdate::new::<P>(1).init(&TagProblem, &mut state);
     let mut n = 0usize;
     let nodes: Vec<Node> = ops.iter().map(|x| parse_node(x, &mut n)).collect();
     let log: Log = Arc::new(Mutex::new(vec![None; n]));
@@ -278,9 +407,44 @@ impl Gen {
             _ => "(e-retain)".into(),
         }
     }
+    /// A shipped pop-process-push component with small parameters (0 included).
+    fn comp(&mut self) -> String {
+        let n = self.rng.below(4);
+        let c = match self.rng.below(20) {
+            0 => "sel-all".to_string(), 1 => "sel-none".to_string(), 2 => format!("sel-clone {n}"), 3 => format!("sel-rand {n}"),
+            4 => format!("sel-norep {n}"), 5 => format!("sel-tour {n} {}", 1 + self.rng.below(3)), 6 => format!("sel-rank {n}"),
+            7 => format!("sel-roul {n}"), 8 => "rep-merge".to_string(), 9 => "rep-discard".to_string(), 10 => format!("rep-mpl {n}"),
+            11 => format!("rep-gen {n}"), 12 => format!("rep-rand {n}"), 13 => "rep-kbi".to_string(), 14 => "mut-tag".to_string(),
+            15 => if self.rng.chance(1, 3) { "mut-err".to_string() } else { "mut-tag".to_string() },
+            16 | 17 => format!("rec-tag {}", self.rng.below(3)), 18 => format!("arch-upd {}", 1 + n), _ => "arch-into".to_string(),
+        };
+        format!("(c-comp {c})")
+    }
+    /// An operation of the `Populations` API (no component).
+    fn api_op(&mut self, h: u64) -> String {
+        loop { let o = self.op(h); if !o.starts_with("(c-") { return o; } }
+    }
+    fn hold(&mut self, h: &mut i64) -> String {
+        let n = self.rng.below(5);
+        let mut ops = vec![];
+        for _ in 0..n {
+            let o = self.api_op((*h).max(0) as u64);
+            Self::track(&o, h);
+            ops.push(o);
+        }
+        tagged(if self.rng.chance(1, 4) { "hold-err" } else { "hold" }, ops)
+    }
+    fn track(o: &str, h: &mut i64) {
+        if o.starts_with("(push") || o.starts_with("(c-split") || o.starts_with("(c-comp sel") { *h += 1 }
+        else if o.starts_with("(pop") || o.starts_with("(trypop") || o.starts_with("(c-ileave") || o.starts_with("(c-comp rep") { *h = (*h - 1).max(0) }
+        else if o.starts_with("(reset") { *h = 0 }
+    }
     fn op(&mut self, h: u64) -> String {
-        let r = self.rng.below(104);
+        let r = self.rng.below(128);
         match r {
+            104..=110 => "(c-eval)".into(),
+            111..=112 => "(c-eval-a)".into(),
+            113..=127 => self.comp(),
             0..=21 => format!("(push {})", self.pop(4)),
             22..=29 => "(pop)".into(),
             30..=35 => "(trypop)".into(),
@@ -309,14 +473,13 @@ impl Gen {
             14..=19 => format!("(try {})", self.item(h, d)),
             20..=37 if d < 3 => self.scope(h, d + 1),
             38..=45 => format!("(c-rot {})", (*h).max(0) as u64 + 1 + self.rng.below(2)),
+            46..=55 => self.hold(h),
             _ => self.tracked_op(h),
         }
     }
     fn tracked_op(&mut self, h: &mut i64) -> String {
         let o = self.op((*h).max(0) as u64);
-        if o.starts_with("(push") || o.starts_with("(c-split") { *h += 1 }
-        else if o.starts_with("(pop") || o.starts_with("(trypop") || o.starts_with("(c-ileave") { *h = (*h - 1).max(0) }
-        else if o.starts_with("(reset") { *h = 0 }
+        Self::track(&o, h);
         o
     }
     /// A scope of a random kind with a random body (height tracking is a heuristic only: failing steps cut bodies short).
@@ -330,9 +493,10 @@ impl Gen {
     /// `try`.
     fn program(&mut self, len: u64) -> Vec<String> {
         let mut h: i64 = 0;
-        (0..len).map(|_| match self.rng.below(12) {
+        (0..len).map(|_| match self.rng.below(13) {
             0..=2 => self.scope(&mut h, 1),
             3 => self.item(&mut h, 0),
+            12 => self.hold(&mut h),
             _ => self.tracked_op(&mut h),
         }).collect()
     }
@@ -342,9 +506,7 @@ impl Gen {
         let mut h: i64 = 0;
         for _ in 0..len {
             let o = self.op(h.max(0) as u64);
-            if o.starts_with("(push") || o.starts_with("(c-split") { h += 1 }
-            else if o.starts_with("(pop") || o.starts_with("(trypop") || o.starts_with("(c-ileave") { h = (h - 1).max(0) }
-            else if o.starts_with("(reset") { h = 0 }
+            Self::track(&o, &mut h);
             ops.push(if wrap { format!("(in {} {o})", self.rng.below(5)) } else { o });
         }
         ops
@@ -527,6 +689,98 @@ fn main() {
                                 ops.extend(after(&mut t));
                                 emit("scope-err", ops);
                             }
+                        }
+                    }
+                }
+            }
+        }
+    }
+    // 5d. State::holding::<Populations> at scope depth 0..3: the stack is held and edited in the innermost scope (closure
+    //     returning Ok / Err), read inside the scopes on the way out and by the caller afterwards.
+    {
+        let mut tag = 3000u64;
+        let mut t = || { tag += 1; tag };
+        for d in 0..=3usize {
+            for kinds in [["cl", "cl", "cl"], ["sc", "sc", "sc"], ["cf", "cf", "cf"], ["sc", "cl", "cf"], ["cl", "cf", "sc"]] {
+                if d == 0 && kinds[0] != "cl" { continue; }
+                for h in 0..=2u64 {
+                    for held in 0..5 {
+                        for ok in [true, false] {
+                            let held_ops: Vec<String> = match held {
+                                0 => vec![],
+                                1 => vec![format!("(push ({} {}))", t(), t()), format!("(rot {})", h + 1), format!("(tryedit (e-push {}))", t())],
+                                2 => vec!["(trypop)".into(), "(len)".into(), format!("(push ({}))", t())],
+                                3 => vec![format!("(push ())"), "(cur)".into(), format!("(peek {h})")],
+                                _ => vec!["(reset)".into(), format!("(push ({}))", t()), "(trypeek 1)".into()],
+                            };
+                            let mut item = tagged(if ok { "hold" } else { "hold-err" }, held_ops);
+                            for lvl in (0..d).rev() {
+                                let inner = if !ok && lvl + 1 == d { format!("(try {item})") } else { item };
+                                item = tagged(kinds[lvl], vec![inner, "(len)".to_string(), "(trypeek 0)".to_string()]);
+                            }
+                            let mut ops: Vec<String> = (0..h).map(|_| format!("(push ({} {}))", t(), t())).collect();
+                            ops.push(item);
+                            ops.extend(["(len)".to_string(), "(trypeek 0)".to_string(), format!("(push ({}))", t()), "(peek 1)".to_string(),
+                                "(c-dup)".to_string(), "(trypop)".to_string(), "(getcur)".to_string()]);
+                            emit("hold", ops);
+                        }
+                    }
+                }
+            }
+        }
+    }
+    // 5e. every shipped pop-process-push component on EMPTY, singleton and larger current populations (evaluated, one
+    //     flavour with an individual that is not), a second population of 0 / 2 individuals and 0..1 more below, at scope
+    //     depth 0..2, followed by reads at the caller's level; and evaluations inside scopes followed by evaluations outside.
+    {
+        let mut tag = 5000u64;
+        let mut t = || { tag += 1; tag };
+        let comps: Vec<String> = ["c-eval", "c-eval-a", "c-clear", "c-dup", "c-comp sel-all", "c-comp sel-none", "c-comp sel-clone 2", "c-comp sel-rand 0",
+            "c-comp sel-rand 2", "c-comp sel-norep 1", "c-comp sel-tour 2 2", "c-comp sel-rank 2", "c-comp sel-roul 1", "c-comp rep-merge",
+            "c-comp rep-discard", "c-comp rep-mpl 0", "c-comp rep-mpl 2", "c-comp rep-gen 2", "c-comp rep-rand 1", "c-comp rep-kbi",
+            "c-comp mut-tag", "c-comp mut-err", "c-comp rec-tag 0", "c-comp rec-tag 1", "c-comp rec-tag 2", "c-comp arch-upd 1", "c-comp arch-upd 3",
+            "c-comp arch-into"].iter().map(|c| format!("({c})")).collect();
+        for c in &comps {
+            for top in [0u64, 1, 2, 5] {
+                for second in [0u64, 2] {
+                    for below in 0..=1u64 {
+                        for depth in 0..=2usize {
+                            for uneval in [false, true] {
+                                if uneval && (top == 0 || depth > 0) { continue; }
+                                let mut ops: Vec<String> = (0..below).map(|_| format!("(push ({} {} {}))", t(), t(), t())).collect();
+                                ops.push(format!("(push {})", list((0..second).map(|_| t().to_string()))));
+                                let inds: Vec<String> = (0..top).map(|i| if uneval && i == 0 { format!("({} u)", t()) } else { t().to_string() }).collect();
+                                ops.push(format!("(push {})", list(inds)));
+                                if depth == 0 && c.contains("arch-into") { ops.push("(c-comp arch-upd 2)".into()); }
+                                let mut item = c.clone();
+                                for lvl in 0..depth { item = tagged(["sc", "cl"][lvl], vec![item]); }
+                                ops.push(item);
+                                ops.extend(["(len)".to_string(), "(trypeek 0)".to_string(), "(trypeek 1)".to_string(), "(trypeek 2)".to_string(),
+                                    format!("(c-rot {})", below + 2), "(c-eval)".to_string(), "(getcur)".to_string(), format!("(peek {})", below + 1)]);
+                                emit("comp", ops);
+                            }
+                        }
+                    }
+                }
+            }
+        }
+        for kind in KINDS {
+            for depth in 1..=3usize {
+                for ev in ["(c-eval)", "(c-eval-a)"] {
+                    for top in [0u64, 1, 3] {
+                        for rounds in 1..=2 {
+                            let mut ops = vec![format!("(push ({} {}))", t(), t()), format!("(push {})", list((0..top).map(|_| format!("({} u)", t()))))];
+                            for _ in 0..rounds {
+                                let mut item = ev.to_string();
+                                for _ in 0..depth { item = tagged(kind, vec![item, "(len)".to_string()]); }
+                                ops.push(item);
+                                ops.push(ev.to_string());
+                                ops.push("(c-clear)".to_string());
+                                ops.push("(c-eval)".to_string());
+                                ops.push("(c-rot 2)".to_string());
+                            }
+                            ops.extend(["(len)".to_string(), "(trypeek 0)".to_string(), "(trypeek 1)".to_string()]);
+                            emit("scope-eval", ops);
                         }
                     }
                 }
